@@ -65,6 +65,12 @@ Lemma walk_forward_fuel_suffices enc :
   walk_forward_from enc fuel cfg l a k None = walk_forward enc cfg l a k.
 Proof. intros Hinj cfg l a k fuel. apply walk_forward_fuel. exact Hinj. Qed.
 
+Lemma walk_backward_fuel_suffices enc :
+  injective enc ->
+  forall cfg l a k fuel, NoDup (map n_key l) -> sort_ok cfg a -> (0 < k)%Z -> List.length l < fuel ->
+  walk_backward_from enc fuel cfg l a k None = walk_backward enc cfg l a k.
+Proof. intros Hinj cfg l a k fuel. apply walk_backward_fuel. exact Hinj. Qed.
+
 (** base_edges unfolded, for the statements *)
 Lemma base_edges_eq enc cfg l a : base_edges enc cfg l a = nodes_to_edges enc (base_list cfg l a).
 Proof. reflexivity. Qed.
